@@ -72,7 +72,7 @@ def run(tier, seed, replay=None):
 
     # ------------------------------------------------------------------ A: knot tolerance in evaluation / continuity
     tols = [1e-14, 1e-12, 1e-10, 1e-8, 1e-6, 1e-4, 1e-2]
-    nb = 10 if tier == 'quick' else 120
+    nb = 25 if tier == 'quick' else 120
     lines, meta = [], []
     for tolf in tols:
         tol = C.fr(tolf)
@@ -278,7 +278,7 @@ def run(tier, seed, replay=None):
                            'controlpoint_absolute_tolerance': tolf, 'vertices': nv})
     # ------------------------------------------------------------------ C: programs over state()
     lines, pmeta = [], []
-    nprog = 300 if tier == 'quick' else 6000
+    nprog = 700 if tier == 'quick' else 6000
     for _ in range(nprog):
         depth = rng.randint(1, 5)
         p = gen_prog(rng, depth)
